@@ -801,11 +801,17 @@ def main(argv):
     if drv is None:
         c.broken.append("extraction/driver build failed: " + dlog[-600:])
     kconst = {}
-    part_formatters(c, drv, kconst)
-    part_tools(c, os.path.dirname(repo_bin("x", SAN)), os.path.dirname(hx_bin("x")), os.path.dirname(repo_bin("x")))
-    part_faults_sanitized(c, os.path.dirname(repo_bin("x", SAN)), os.path.dirname(hx_bin("x")))
-    part_valgrind(c, os.path.dirname(repo_bin("x")), os.path.dirname(hx_bin("x")))
-    part_valgrind_faults(c, os.path.dirname(repo_bin("x")), os.path.dirname(hx_bin("x")))
+    phases = {}
+    for name, fn in (("formatters+streams", lambda: part_formatters(c, drv, kconst)),
+                     ("sanitizer sampling", lambda: part_tools(c, os.path.dirname(repo_bin("x", SAN)), os.path.dirname(hx_bin("x")), os.path.dirname(repo_bin("x")))),
+                     ("sanitizer under faults", lambda: part_faults_sanitized(c, os.path.dirname(repo_bin("x", SAN)), os.path.dirname(hx_bin("x")))),
+                     ("memcheck", lambda: part_valgrind(c, os.path.dirname(repo_bin("x")), os.path.dirname(hx_bin("x")))),
+                     ("memcheck under faults", lambda: part_valgrind_faults(c, os.path.dirname(repo_bin("x")), os.path.dirname(hx_bin("x"))))):
+        t0 = time.time()
+        fn()
+        phases[name] = round(time.time() - t0, 1)
+    c.cov["phase_seconds"] = phases
+    log("  phases: %s" % phases)
     if c.tier == "thorough":
         coqchk(c)
     shutil.rmtree(SCRATCH, ignore_errors=True)
